@@ -115,23 +115,30 @@ theorem roBlocked_call_value {v : Nat} (h : roBlocked true CallKind.call.op v = 
   simp [roBlocked, CallKind.op, writes_call_false] at h
   exact h
 
+theorem callExit_err (env : Env) (kind : CallKind) (saved : World) (r : Result) :
+    (callExit env kind saved r).err = r.err := rfl
+
+theorem callExit_world (env : Env) (kind : CallKind) (saved : World) (r : Result) :
+    (callExit env kind saved r).world = if r.err.isSome then env.rv saved r.world else r.world := rfl
+
 /-- the four call entry points in a read-only frame: whatever the callee does keeps the live
     observation, so does the frame -/
 theorem static_callFrameK (env : Env) (hrv : RevertRestoresObs env.rv) (depth : Nat) (self : Addr)
-    (kind : CallKind) (target : Addr) (value : Nat) (k : Nat → Bool → Addr → World → Result) (w : World)
+    (kind : CallKind) (target : Addr) (value : Nat) (k : Nat → Bool → Addr → World → Result)
+    (pe : Option Err) (w : World)
     (hk : ∀ d s w0, (obs w0).WF → Keeps w0 (k d true s w0).world)
     (hnb : roBlocked true kind.op value = false) (hwf : (obs w).WF) :
-    Keeps w (callFrameK env depth true self kind target value k w).world := by
-  have exitKeeps : ∀ (w2 : World) (s : Addr) (exec : Bool), Keeps w w2 →
-      Keeps w (callExit env kind w (if exec then k (depth + 1) true s w2 else { world := w2 })).world := by
-    intro w2 s exec h2
-    unfold callExit
-    cases exec
-    · simpa using h2
-    · simp only [↓reduceIte]
-      split
-      · exact Keeps.of_obs_eq (hrv _ _) hwf
+    Keeps w (callFrameK env depth true self kind target value k pe w).world := by
+  have exitKeeps : ∀ (w2 : World) (s : Addr) (callee : Callee), Keeps w w2 →
+      Keeps w (callExit env kind w (runCallee callee pe k depth true s w2)).world := by
+    intro w2 s callee h2
+    rw [callExit_world]
+    split
+    · exact Keeps.of_obs_eq (hrv _ _) hwf
+    · cases callee
+      · exact h2
       · exact h2.trans (hk _ _ _ h2.2)
+      · exact h2
   unfold callFrameK callEnter
   split
   · next h =>
@@ -231,7 +238,7 @@ theorem static_run (env : Env) (hrv : RevertRestoresObs env.rv) :
     · exact Keeps.refl hwf
     · next hnb =>
       have h1 := static_callFrameK env hrv depth self kind target value
-        (fun d ro' self' w' => run env d ro' self' w' [] [] body) w
+        (fun d ro' self' w' => run env d ro' self' w' [] [] body) (precompileOutcome body) w
         (fun d s w0 hw0 => ihb hp.1 d s w0 [] [] hw0) (by simpa using hnb) hwf
       exact h1.trans (ihr hp.2 _ _ _ _ _ h1.2)
   | create id two salt value init rest _ _ =>
@@ -271,11 +278,5 @@ theorem callEnter_snapshot (env : Env) (depth : Nat) (ro : Bool) (self : Addr) (
     · by_cases h1 : (!w.canTransfer self value) = true
       · simp [h1]
       · simp [h1]
-
-theorem callExit_err (env : Env) (kind : CallKind) (saved : World) (r : Result) :
-    (callExit env kind saved r).err = r.err := rfl
-
-theorem callExit_world (env : Env) (kind : CallKind) (saved : World) (r : Result) :
-    (callExit env kind saved r).world = if r.err.isSome then env.rv saved r.world else r.world := rfl
 
 end Rangers.Model.Evm12
